@@ -275,7 +275,7 @@ static int g_fill_obj;
 
 struct Op
 {
-  char kind; // g=get-assign e=emplace u=unregister d=destroy m=move-assign c=move-construct s=store/load roundtrip
+  char kind; // g=get-assign e=emplace u=unregister d=destroy m=move-assign c=move-construct s=store/load roundtrip R=destroy and re-create the sandbox
   int i, j;
 };
 static std::string opstr(const Op& o)
@@ -291,6 +291,7 @@ struct OwnerModel
   int st[3] = { 0, 0, 0 };
   uint64_t tok[3] = { 0, 0, 0 };
   int obj[3] = { -1, -1, -1 };
+  int recreated = 0;                  // the sandbox object was destroyed and created again at least once (owners survive that)
   std::map<uint64_t, int> live;       // token -> object index (-2 = filler)
   std::set<uint64_t> ever;            // every token ever issued
 };
@@ -443,6 +444,18 @@ static bool owner_apply(OwnerRun& r, const Op& op)
       m.st[op.j] = 1;
       break;
     }
+    case 'R': { // destroy the sandbox and create it again while owners are alive: a token stays its owner's until the owner releases it
+      auto o = attempt([&] {
+        r.sb.destroy_sandbox();
+        r.sb.create_sandbox(0);
+      });
+      if (o != RET) {
+        viol("C15 level=owner op=recreate kind=abort", k, "destroy_sandbox / create_sandbox aborted");
+        return false;
+      }
+      m.recreated = 1;
+      break;
+    }
     case 's': { // store the token into sandbox memory, read it back, resolve it
       if (!r.own[op.i] || m.st[op.i] != 2) return true;
       auto pp = r.sb.malloc_in_sandbox<int*>();
@@ -473,6 +486,7 @@ static std::string owner_key(OwnerRun& r)
   // implementation-side: table contents and cursor (private, read-only)
   k += "|c=" + std::to_string((unsigned)r.sb.app_ptr_map.counter) + "|";
   for (auto& kv : r.sb.app_ptr_map.pointer_map) k += std::to_string((unsigned)kv.first) + ",";
+  k += "|R" + std::to_string(r.m.recreated);
   k += "|dead=";
   for (auto t : r.m.ever)
     if (!r.m.live.count(t)) k += std::to_string(t) + ",";
@@ -482,6 +496,7 @@ static std::string owner_key(OwnerRun& r)
 static std::vector<Op> owner_alphabet()
 {
   std::vector<Op> a;
+  a.push_back({ 'R', 0, 0 });
   for (int i = 0; i < 3; i++) {
     for (int j = 0; j < 2; j++) a.push_back({ 'g', i, j });
     a.push_back({ 'e', i, 2 });
